@@ -1,29 +1,336 @@
 package symgo
 
 import (
+	"fmt"
+
 	"golang.org/x/tools/go/ssa"
 )
 
-// SymBuf is a []byte with symbolic contents and symbolic length (lazy buffer).
-// Implemented in lazybuf.go (placeholder until the codec harness lands).
+// SymBuf is a []byte with symbolic contents and *symbolic length* (lazy buffer, DESIGN 3.2):
+//
+//	base    an SMT array BV64->BV8 plus a BV64 length
+//	bytes   a concrete number of (possibly symbolic) bytes
+//	concat  parts one after the other
+//	slice   a window [off, off+len) of another buffer
+//
+// Reading index i yields an ite/select term; Go's bounds checks become branch conditions decided
+// by the solver; lengths and offsets stay symbolic. cap(b) == len(b) (append always allocates),
+// which is sound for code that does not rely on aliasing of the appended-to buffer.
 type SymBuf struct {
-	LenT *Term
+	Kind  uint8 // 0 base, 1 bytes, 2 concat, 3 slice
+	Arr   *Term
+	LenT  *Term
+	Bytes []*Term
+	Parts []*SymBuf
+	Src   *SymBuf
+	Off   *Term
 }
 
-func (b *SymBuf) hash(h *hasher) (uint64, uint64) { return 1, 1 }
+// SymBufElem is the address of one element of a SymBuf (result of IndexAddr).
+type SymBufElem struct {
+	Buf *SymBuf
+	Idx *Term
+}
+
+func (b *SymBuf) hash(h *hasher) (uint64, uint64) {
+	var a, c uint64 = 0x5b, 0x5c
+	a = mix(a, uint64(b.Kind))
+	if b.Arr != nil {
+		x, y := b.Arr.Hash()
+		a, c = mix(a, x), mix(c, y)
+	}
+	if b.LenT != nil {
+		x, y := b.LenT.Hash()
+		a, c = mix(a, x), mix(c, y)
+	}
+	if b.Off != nil {
+		x, y := b.Off.Hash()
+		a, c = mix(a, x), mix(c, y)
+	}
+	for _, t := range b.Bytes {
+		x, y := t.Hash()
+		a, c = mix(a, x), mix(c, y)
+	}
+	for _, p := range b.Parts {
+		x, y := p.hash(h)
+		a, c = mix(a, x), mix(c, y)
+	}
+	if b.Src != nil {
+		x, y := b.Src.hash(h)
+		a, c = mix(a, x), mix(c, y)
+	}
+	return a, c
+}
+
+func symBytes(bs []*Term) *SymBuf {
+	return &SymBuf{Kind: 1, Bytes: bs, LenT: BV(64, uint64(len(bs)))}
+}
+
+// read returns the byte at index i (no bounds check).
+func (b *SymBuf) read(i *Term) *Term {
+	switch b.Kind {
+	case 0:
+		return Select(b.Arr, i)
+	case 1:
+		if i.IsConst() {
+			if i.K < uint64(len(b.Bytes)) {
+				return b.Bytes[i.K]
+			}
+			return BV(8, 0)
+		}
+		r := BV(8, 0)
+		for k := len(b.Bytes) - 1; k >= 0; k-- {
+			r = Ite(Eq(i, BV(64, uint64(k))), b.Bytes[k], r)
+		}
+		return r
+	case 2:
+		// ite(i < L1, p1[i], ite(i < L1+L2, p2[i-L1], ...))
+		var offs []*Term
+		off := BV(64, 0)
+		for _, p := range b.Parts {
+			offs = append(offs, off)
+			off = BinBV(OpBVAdd, off, p.LenT)
+		}
+		r := BV(8, 0)
+		for k := len(b.Parts) - 1; k >= 0; k-- {
+			p := b.Parts[k]
+			end := BinBV(OpBVAdd, offs[k], p.LenT)
+			v := p.read(BinBV(OpBVSub, i, offs[k]))
+			if k == len(b.Parts)-1 {
+				r = v
+			} else {
+				r = Ite(CmpBV(OpBVUlt, i, end), v, r)
+			}
+		}
+		return r
+	case 3:
+		return b.Src.read(BinBV(OpBVAdd, b.Off, i))
+	}
+	panic("symbuf kind")
+}
+
+func (e *Engine) toSymBuf(st *State, v Value) *SymBuf {
+	switch x := v.(type) {
+	case *SymBuf:
+		return x
+	case Slice:
+		bs := make([]*Term, x.Len)
+		for i := 0; i < x.Len; i++ {
+			bs[i] = st.load(x.Base.Field(x.Off + i)).(*Term)
+		}
+		return symBytes(bs)
+	case Str:
+		return symBytes(x.Bytes())
+	}
+	panic(abort{kind: "unsupported", msg: fmt.Sprintf("conversion of %T to symbolic buffer", v)})
+}
+
+// boundsCond forks on a Go bounds check: ok is the in-range condition.
+func (e *Engine) boundsCond(w *Worker, st *State, g *G, fr *Frame, ok *Term, what string) {
+	if ok.IsTrue() {
+		return
+	}
+	if ok.IsFalse() {
+		e.rtPanic(st, g, fr, what+" out of range (symbolic buffer)")
+	}
+	if e.decide(w, st, "bounds", e.posStr(e.instrPos(fr)), []*Term{ok, Not(ok)}) == 1 {
+		e.rtPanic(st, g, fr, what+" out of range (symbolic buffer)")
+	}
+}
 
 func (e *Engine) symBufIndexAddr(w *Worker, st *State, g *G, fr *Frame, b *SymBuf, idx *Term) Value {
-	unsupported(e.instrPos(fr), "symbuf index")
-	return nil
+	// 0 <= idx < len (idx is a signed int)
+	ok := And(CmpBV(OpBVSle, BV(64, 0), idx), CmpBV(OpBVSlt, idx, b.LenT))
+	e.boundsCond(w, st, g, fr, ok, "index")
+	return SymBufElem{Buf: b, Idx: idx}
 }
+
+// entails reports whether the path condition implies t == u (a solver query without arrays
+// in the usual case: lengths and offsets are pure bit-vector terms).
+func (e *Engine) entails(w *Worker, st *State, t, u *Term) bool {
+	eq := Eq(t, u)
+	if eq.IsTrue() {
+		return true
+	}
+	if eq.IsFalse() {
+		return false
+	}
+	if st.model != nil && st.model.Eval(eq) != 1 {
+		return false // the current model of pc is a counterexample
+	}
+	ok, _ := w.feasible(st, Not(eq))
+	return !ok
+}
+
 func (e *Engine) symBufSlice(w *Worker, st *State, g *G, fr *Frame, b *SymBuf, in *ssa.Slice) Value {
-	unsupported(e.instrPos(fr), "symbuf slice")
+	lo := BV(64, 0)
+	hi := b.LenT
+	if in.Low != nil {
+		lo = e.get(st, g, fr, in.Low).(*Term)
+	}
+	if in.High != nil {
+		hi = e.get(st, g, fr, in.High).(*Term)
+	}
+	if in.Max != nil {
+		unsupported(in.Pos(), "full slice expression on symbolic buffer")
+	}
+	ok := And(CmpBV(OpBVSle, BV(64, 0), lo), And(CmpBV(OpBVSle, lo, hi), CmpBV(OpBVSle, hi, b.LenT)))
+	e.boundsCond(w, st, g, fr, ok, "slice bounds")
+	n := BinBV(OpBVSub, hi, lo)
+	if lo.IsConst() && lo.K == 0 && SameTerm(hi, b.LenT) {
+		return b
+	}
+	// structural alignment: if the window provably starts and ends at part boundaries of a
+	// concatenation, the result is the exact sub-concatenation (so that later comparisons with
+	// the original parts are syntactic). The boundary facts are discharged by the solver.
+	if b.Kind == 2 {
+		parts := b.Parts
+		start := -1
+		sum := BV(64, 0)
+		for k := 0; k <= len(parts); k++ {
+			if e.entails(w, st, lo, sum) {
+				start = k
+				break
+			}
+			if k < len(parts) {
+				sum = BinBV(OpBVAdd, sum, parts[k].LenT)
+			}
+		}
+		if start >= 0 {
+			acc := BV(64, 0)
+			for k := start; k <= len(parts); k++ {
+				if e.entails(w, st, n, acc) {
+					sub := parts[start:k]
+					switch len(sub) {
+					case 0:
+						return symBytes(nil)
+					case 1:
+						return sub[0]
+					}
+					return &SymBuf{Kind: 2, Parts: append([]*SymBuf{}, sub...), LenT: acc}
+				}
+				if k < len(parts) {
+					acc = BinBV(OpBVAdd, acc, parts[k].LenT)
+				}
+			}
+			// aligned start only: drop the leading parts
+			if start > 0 {
+				rest := parts[start:]
+				ln := BV(64, 0)
+				for _, p := range rest {
+					ln = BinBV(OpBVAdd, ln, p.LenT)
+				}
+				var src *SymBuf
+				if len(rest) == 1 {
+					src = rest[0]
+				} else {
+					src = &SymBuf{Kind: 2, Parts: append([]*SymBuf{}, rest...), LenT: ln}
+				}
+				return &SymBuf{Kind: 3, Src: src, Off: BV(64, 0), LenT: n}
+			}
+		}
+	}
+	if b.Kind == 3 {
+		nb := &SymBuf{Kind: 3, Src: b.Src, Off: BinBV(OpBVAdd, b.Off, lo), LenT: n}
+		// a window of a window may now align with the underlying concatenation
+		if b.Src.Kind == 2 {
+			if r := e.alignWindow(w, st, nb); r != nil {
+				return r
+			}
+		}
+		return nb
+	}
+	return &SymBuf{Kind: 3, Src: b, Off: lo, LenT: n}
+}
+
+// alignWindow tries to express a window over a concatenation as an exact sub-concatenation.
+func (e *Engine) alignWindow(w *Worker, st *State, nb *SymBuf) *SymBuf {
+	parts := nb.Src.Parts
+	sum := BV(64, 0)
+	for k := 0; k <= len(parts); k++ {
+		if e.entails(w, st, nb.Off, sum) {
+			acc := BV(64, 0)
+			for j := k; j <= len(parts); j++ {
+				if e.entails(w, st, nb.LenT, acc) {
+					sub := parts[k:j]
+					switch len(sub) {
+					case 0:
+						return symBytes(nil)
+					case 1:
+						return sub[0]
+					}
+					return &SymBuf{Kind: 2, Parts: append([]*SymBuf{}, sub...), LenT: acc}
+				}
+				if j < len(parts) {
+					acc = BinBV(OpBVAdd, acc, parts[j].LenT)
+				}
+			}
+			return nil
+		}
+		if k < len(parts) {
+			sum = BinBV(OpBVAdd, sum, parts[k].LenT)
+		}
+	}
 	return nil
 }
+
 func (e *Engine) symBufAppend(w *Worker, st *State, g *G, fr *Frame, b *SymBuf, x Value) Value {
-	unsupported(e.instrPos(fr), "symbuf append")
-	return nil
+	if b == nil {
+		b = symBytes(nil)
+	}
+	add := e.toSymBuf(st, x)
+	// merge adjacent concrete-length byte runs
+	if b.Kind == 1 && add.Kind == 1 {
+		return symBytes(append(append([]*Term{}, b.Bytes...), add.Bytes...))
+	}
+	var parts []*SymBuf
+	if b.Kind == 2 {
+		parts = append(parts, b.Parts...)
+	} else if !(b.Kind == 1 && len(b.Bytes) == 0) {
+		parts = append(parts, b)
+	}
+	if add.Kind == 1 && len(parts) > 0 && parts[len(parts)-1].Kind == 1 {
+		last := parts[len(parts)-1]
+		parts[len(parts)-1] = symBytes(append(append([]*Term{}, last.Bytes...), add.Bytes...))
+	} else if add.Kind == 2 {
+		parts = append(parts, add.Parts...)
+	} else if !(add.Kind == 1 && len(add.Bytes) == 0) {
+		parts = append(parts, add)
+	}
+	if len(parts) == 1 {
+		return parts[0]
+	}
+	ln := BV(64, 0)
+	for _, p := range parts {
+		ln = BinBV(OpBVAdd, ln, p.LenT)
+	}
+	return &SymBuf{Kind: 2, Parts: parts, LenT: ln}
 }
-func (e *Engine) toSymBuf(st *State, v Value) *SymBuf { return nil }
-func vBytes(c *icall)                                 { unsupported(c.pos(), "vBytes") }
-func vBytesEqual(c *icall)                            { unsupported(c.pos(), "vBytesEqual") }
+
+// vBytes(name) []byte: a fresh symbolic buffer with symbolic length (0 <= len < 2^31).
+func vBytes(c *icall) {
+	name := c.strArg(0)
+	c.g.SymN++
+	arr := Sym(fmt.Sprintf("%s.arr#%d.%d", name, c.g.ID, c.g.SymN), WArr)
+	ln := Sym(fmt.Sprintf("%s.len#%d.%d", name, c.g.ID, c.g.SymN), 64)
+	c.st.addPC(CmpBV(OpBVUlt, ln, BV(64, 1<<31)))
+	c.st.model = nil
+	c.ret(&SymBuf{Kind: 0, Arr: arr, LenT: ln})
+}
+
+// vBytesEqual(a, b) bool: same length and same contents (decided with a fresh index).
+func vBytesEqual(c *icall) {
+	a := c.e.toSymBuf(c.st, c.args[0])
+	b := c.e.toSymBuf(c.st, c.args[1])
+	if a == b {
+		c.ret(TrueT) // structurally the same buffer
+		return
+	}
+	c.g.SymN++
+	j := Sym(fmt.Sprintf("eqidx#%d.%d", c.g.ID, c.g.SymN), 64)
+	// equal  <=>  len(a)==len(b) ∧ ∀j<len: a[j]==b[j]; with j fresh and unconstrained the
+	// term below is valid iff the buffers are equal, so asserting it (vAssert) asks the
+	// solver for a j that distinguishes them.
+	same := And(Eq(a.LenT, b.LenT), Or(Not(CmpBV(OpBVUlt, j, a.LenT)), Eq(a.read(j), b.read(j))))
+	c.ret(same)
+}
